@@ -180,6 +180,10 @@ def _worker(args):
 def _worker_inner(pid, tier, seed, idx, plan, active_ids):
     import hypothesis
     from hypothesis import given, settings, HealthCheck, Phase
+    # allow large structured cases: the default entropy budget silently discards big models / long
+    # histories, which biases the sample towards small ones (documented knob of the engine)
+    import hypothesis.internal.conjecture.engine as _eng
+    _eng.BUFFER_SIZE = 64 * 1024
     prop = importlib.import_module("vf.props." + pid.lower())
     active = [e for e in load_findings(pid) if e["id"] in active_ids]
     st = {
